@@ -3,6 +3,7 @@
 Forward symbolic execution, path enumeration, loops cut at invariants, calls replaced by contracts.
 See DESIGN.md section 3 for the semantics assumed."""
 import itertools
+import os
 import time
 
 import z3
@@ -123,6 +124,16 @@ class Ptr:
 NULL = Ptr(None)
 
 
+class PtrArr:
+    """pointer-valued field of an array of structs whose elements all point into one region"""
+
+    def __init__(self, region, offs, nulls):
+        self.region = region
+        self.offs = offs
+        self.nulls = nulls
+        self.writes = []
+
+
 class Region:
     _ids = itertools.count(1)
     all = {}
@@ -140,6 +151,9 @@ class Region:
 
     def __repr__(self):
         return "R%d(%s)" % (self.rid, self.name)
+
+
+OPAQUE = Region("opaque", None, z3.IntVal(0))
 
 
 class Val:
@@ -394,6 +408,11 @@ class HeapView:
         return self.s.ghost[name]
 
 
+def _is_one(t):
+    t = z3.simplify(t) if not isinstance(t, int) else t
+    return (isinstance(t, int) and t == 1) or (z3.is_int_value(t) and t.as_long() == 1)
+
+
 def _is_zero(t):
     t = z3.simplify(t) if not isinstance(t, int) else t
     return (isinstance(t, int) and t == 0) or (z3.is_int_value(t) and t.as_long() == 0)
@@ -498,6 +517,7 @@ class Exec:
         self.obligations = []
         self.ob_names = {}
         self.ob_seen = set()
+        self.file_consts = {}
         self.range_seen = set()
         self.trivial = []
         self.loop_counter = 0
@@ -559,7 +579,13 @@ class Exec:
     def sizeof(self, t):
         return cfront.sizeof_type(t, self.layouts)
 
-    def oblige(self, st, kind, goal, where="", name=None):
+    def oblige(self, st, kind, goal, where="", name=None, depth=0):
+        if False and depth < 2 and z3.is_and(goal) and kind in ("POST", "INV_INIT", "INV_PRESERVE", "PRE"):
+            # one obligation per conjunct: smaller queries, and the failing clause is named
+            base = name or "%s@%s" % (kind, where)
+            for q, ch in enumerate(goal.children()):
+                self.oblige(st, kind, ch, where, name="%s.%d" % (base, q), depth=depth + 1)
+            return
         goal = z3.simplify(goal) if not z3.is_quantifier(goal) else goal
         if z3.is_true(goal):
             base = name or "%s@%s" % (kind, where)
@@ -582,14 +608,42 @@ class Exec:
         self.obligations.append(Obligation(nm, kind, self.len_facts + st.pc, goal, where))
         st.assume(goal)
 
+    def wrap_in(self, st, term, t):
+        """wrap(term, t), dropping the modular reduction when the quantifier-free path facts already imply
+        that the mathematical value is representable (keeps the VCs free of dead `If` towers)"""
+        if z3.is_bv(term) or t.name == "flags" or not self.opts.get("elide_wrap"):
+            return wrap(term, t)
+        term = z3.simplify(term)
+        if z3.is_int_value(term):
+            return wrap(term, t)
+        if _nonlinear(term):
+            return wrap(term, t)
+        s = z3.Solver()
+        s.set("timeout", 300)
+        for a in self.len_facts:
+            if not has_quantifier(a) and not _nonlinear(a):
+                s.add(a)
+        for a in st.pc:
+            if not has_quantifier(a) and not _nonlinear(a):
+                s.add(a)
+        s.add(z3.Not(in_range(term, t)))
+        t0 = time.time()
+        r = s.check()
+        self.solver_time += time.time() - t0
+        if r == z3.unsat:
+            return term
+        return wrap(term, t)
+
     def feasible(self, st, extra=None):
         if not self.prune:
             return True
         s = z3.Solver()
         s.set("timeout", 2000)
-        s.add(*self.len_facts)
+        for a in self.len_facts:
+            if not has_quantifier(a) and not _nonlinear(a):
+                s.add(a)
         for a in st.pc:
-            if not has_quantifier(a):
+            if not has_quantifier(a) and not _nonlinear(a):
                 s.add(a)
         if extra is not None:
             s.add(extra)
@@ -641,6 +695,18 @@ class Exec:
         return Val(t, v)
 
     def load_ptr_family(self, st, ptr, t):
+        """pointer stored in an array element: supported when every element points into ONE region"""
+        cur = st.pmem.get((ptr.region.rid, ptr.prefix))
+        if cur is None:
+            if ptr.region.zero:
+                return NULL
+            raise Unsupported("load of pointer from array element %r" % (ptr,))
+        if isinstance(cur, PtrArr):
+            for (ix, pv) in reversed(cur.writes):
+                if ix.eq(ptr.off) or z3.is_true(z3.simplify(ix == ptr.off)):
+                    return pv           # the pointer stored at this very index on this path
+                break
+            return Ptr(cur.region, cur.offs[ptr.off], "", cur.nulls[ptr.off])
         raise Unsupported("load of pointer from array element %r" % (ptr,))
 
     def store(self, st, ptr, t, val, where="", check=True):
@@ -657,8 +723,22 @@ class Exec:
                 self.store(st, dp, ft, v, check=False)
             return
         if t.kind == "ptr":
-            if not (ptr.region.local or _is_zero(ptr.off)):
-                raise Unsupported("store of pointer into array element %r" % (ptr,))
+            if not (ptr.region.local or _is_zero(ptr.off)) or isinstance(st.pmem.get((ptr.region.rid, ptr.prefix)), PtrArr):
+                cur = st.pmem.get((ptr.region.rid, ptr.prefix))
+                tgt = val.v
+                if cur is None:
+                    cur = PtrArr(tgt.region, z3.K(I, z3.IntVal(0)), z3.K(I, z3.BoolVal(True)))
+                if not isinstance(cur, PtrArr):
+                    raise Unsupported("store of pointer into array element over a scalar pointer %r" % (ptr,))
+                if tgt.region is not None and cur.region is not None and cur.region is not tgt.region:
+                    reg = OPAQUE        # elements point into different regions: contents no longer tracked
+                else:
+                    reg = cur.region if cur.region is not None else tgt.region
+                npa = PtrArr(reg, z3.Store(cur.offs, ptr.off, tgt.off),
+                             z3.Store(cur.nulls, ptr.off, tgt.is_null_term()))
+                npa.writes = [(ptr.off, tgt)]
+                st.pmem[(ptr.region.rid, ptr.prefix)] = npa
+                return
             st.pmem[(ptr.region.rid, ptr.prefix)] = val.v
             return
         arr = st.array(ptr.region, ptr.prefix, t)
@@ -967,6 +1047,7 @@ class Exec:
             reg = Region("%s.%s" % (p.region.name, p.prefix), at.to, z3.IntVal(at.n), fresh=p.region.fresh,
                          zero=p.region.zero)
             reg.local = p.region.local
+            reg.embedded_of = (p.region.rid, p.prefix)
             r = Ptr(reg)
             self.heap0.ptrs[key] = r
         return r
@@ -1019,7 +1100,7 @@ class Exec:
                     nv = Val(t, z3.simplify(r))
                 else:
                     # narrower than int: computed in int, converted back (implementation-defined wrap, not UB)
-                    nv = Val(t, wrap(r, t))
+                    nv = Val(t, self.wrap_in(st, r, t))
             self.write_lvalue(st, lv, nv, w)
             return old if n.get("isPostfix") else nv
         raise Unsupported("unary " + op)
@@ -1050,7 +1131,7 @@ class Exec:
             if t.signed:
                 self.oblige(st, "OVERFLOW", in_range(r, t), w)
                 return Val(t, z3.simplify(r))
-            return Val(t, wrap(r, t))
+            return Val(t, self.wrap_in(st, r, t))
         if op in ("/", "%"):
             self.oblige(st, "DIV0", y != 0, w)
             if t.signed:
@@ -1106,6 +1187,12 @@ class Exec:
             return z3.IntVal(r)
         if z3.is_int_value(x) and not z3.is_int_value(y):
             x, y = y, x
+        if z3.is_int_value(y) and t.signed and op == "&" and 0 <= y.as_long() < (1 << (t.bits - 1)):
+            # two's complement bit k of a signed x is floor(x / 2^k) mod 2 (z3 div/mod are Euclidean)
+            c = y.as_long()
+            bits = [k for k in range(t.bits - 1) if (c >> k) & 1]
+            if len(bits) <= 16:
+                return z3.Sum([z3.If(bit(x, k), z3.IntVal(1 << k), z3.IntVal(0)) for k in bits]) if bits else z3.IntVal(0)
         if z3.is_int_value(y) and not t.signed:
             c = y.as_long()
             bits = [k for k in range(t.bits) if (c >> k) & 1]
@@ -1564,6 +1651,7 @@ class Exec:
             _assigned_locals(inc, mod_locals)
         _assigned_locals(cond, mod_locals)
         mod_mem = set()
+        rid_limit = max(Region.all) if Region.all else 0
         for _round in range(4):
             probe = self.havoc_loop_state(s0, mod_locals, mod_mem)
             saved = (self.obligations, self.ob_names, self.exits, self.written_log, self.npaths,
@@ -1589,8 +1677,8 @@ class Exec:
                 self.covers = cov
             new = set()
             for (reg, pref, kind) in log:
-                if reg.local and reg.fresh and False:
-                    continue
+                if reg.rid > rid_limit:
+                    continue        # allocated inside the iteration itself: not loop-carried state
                 new.add((reg, pref, kind))
             if self.written_log is not None:
                 self.written_log |= new
@@ -1666,6 +1754,10 @@ class Exec:
                 self.havoc_region(h, Ptr(reg), None if pref == "*" else list(pref))
                 continue
             if kind == "ptr":
+                if not reg.local and (reg.length is None or not _is_one(reg.length)):
+                    h.pmem[(reg.rid, pref)] = PtrArr(OPAQUE, self.fresh("offs", z3.ArraySort(I, I)),
+                                                     self.fresh("nulls", z3.ArraySort(I, B)))
+                    continue
                 if reg.local:
                     cur = h.pmem.get((reg.rid, pref))
                     if cur is not None and cur.region is not None:
@@ -1776,6 +1868,9 @@ class Exec:
                 continue
             if self.assign_allowed(allowed, rid, field):
                 continue
+            emb = getattr(reg, "embedded_of", None)
+            if emb is not None and self.assign_allowed(allowed, emb[0], emb[1]):
+                continue
             init = self.heap0.arrays.get((rid, field))
             if init is None or init.eq(arr):
                 continue
@@ -1833,6 +1928,39 @@ class PathEnd(Exception):
 class NeedFork(Exception):
     def __init__(self, node):
         self.node = node
+
+
+_nl_cache = {}
+
+
+def _nonlinear(t):
+    """contains a product / division / modulus of two non-constant terms (z3 may ignore its timeout there)"""
+    k = t.get_id()
+    r = _nl_cache.get(k)
+    if r is not None:
+        return r
+    seen = set()
+    stack = [t]
+    r = False
+    while stack:
+        x = stack.pop()
+        xi = x.get_id()
+        if xi in seen:
+            continue
+        seen.add(xi)
+        if z3.is_quantifier(x):
+            stack.append(x.body())
+            continue
+        if z3.is_app(x):
+            kd = x.decl().kind()
+            if kd in (z3.Z3_OP_MUL, z3.Z3_OP_IDIV, z3.Z3_OP_MOD, z3.Z3_OP_DIV, z3.Z3_OP_REM):
+                nc = [c for c in x.children() if not z3.is_int_value(c) and not z3.is_rational_value(c)]
+                if len(nc) >= 2 or (kd != z3.Z3_OP_MUL and not z3.is_int_value(x.children()[1])):
+                    r = True
+                    break
+            stack.extend(x.children())
+    _nl_cache[k] = r
+    return r
 
 
 _hq_cache = {}
